@@ -56,6 +56,11 @@ CLAIMED = {
          "Exhaustive over the finite domains (2^8, 2^16, signed 16-bit): String() returns for every value, equals the documented name for documented values and the documented fallback otherwise; parsing a documented name gives the value back for ImageType, XMP namespaces and the text-unmarshalable meta enums; ~17 M TagName calls return.",
          "Trusted: the documented tables in spec/MC_EnumTables.tla (reviewed against the doc comments / ExifTool tables; two discrepancies on the pinned tree were library defects and were fixed). Names of the large tag-id maps and camera-model maps are checked for totality only.",
          "DESIGN.md section 4 C17"),
+
+ "C16": ("TLA+ spec Codec (ExposureBias Pack/Unpack and text form over all 2^16 encodings; MessagePack integer format lengths vs. size hint over all 16-bit values; enumeration of every string of length <= MaxLen over the parsers' branching alphabet; UUID text forms x malformation classes) model-checked by TLC; the emitted texts/strings/plans are run through the real MarshalText/UnmarshalText/MarshalJSON/encoding-json/MarshalMsg/UnmarshalMsg/Msgsize/ParseString/Encode/Decode",
+         "Exhaustive for ExposureBias (text equals the specified text, Unmarshal(Marshal(v)) = v, idempotence, JSON) and for the MessagePack round trip + Msgsize upper bound of 16 integer-backed types over their whole 8/16-bit domains; every decoder (24 entry points incl. msgp and json paths) returns on ~6k (quick) / ~90k (thorough) enumerated strings and their embeddings; 6 UUID forms x 9 classes x 6 seeded values; k/100 fixed-point values for Aperture/FocalLength; structural codecs (PHash64/256 little-endian packing, Dimensions, FocusDistance, UUID) on symbolic distinct bytes and 20k seeded values.",
+         "NOT decided by the specification: IEEE-754 text fidelity of arbitrary float32 values, NaN/Inf/denormal text forms (TLC has no floating point) - float-backed types are covered only at k/100 fixed-point values and by bit-exact MessagePack round trips of seeded bit patterns. PHash Encode/Decode get buffers of the required length.",
+         "DESIGN.md section 4 C16"),
 }
 NOT_APPLICABLE = {
  "C18": "Bit-for-bit equality of AVX and Go float32 DCT kernels and their error bound against the real DCT-II are IEEE-754 statements over 2^(32*64) inputs; TLA+/TLC has no floating point and the kernels have no state machine to specify (DESIGN.md section 5).",
